@@ -213,6 +213,10 @@ func genScript(profile string, seed int64, idx int, tier string) SScript {
 		return s
 	}
 	if s.Cfg.RealJanitor {
+		if rng.Intn(2) == 0 {
+			// an Unlimited cache that receives per-call TTLs: the janitor must notice that expirations were set
+			s.Cfg.TTL = cache.UnlimitedTTL
+		}
 		s.Cfg.JobInterval = time.Millisecond
 		s.Cfg.Jitter = Rat{-1, 1, -1}
 		s.Cfg.DEA = []time.Duration{time.Millisecond, 30 * time.Minute, 3 * time.Millisecond}[rng.Intn(3)]
